@@ -79,3 +79,44 @@ package client
 //@   before store send assert resumed-only-missing: forall(m, 0, len(missing), forall(k, 0, len(parts), missing[m].End <= parts[k].Beg || parts[k].End <= missing[m].Beg))
 //@   before store send assert resumed-nothing-forgotten: forall(x, 0, f.GetSize(), exists(k, 0, len(parts), parts[k].Beg <= x && x < parts[k].End) || exists(m, 0, len(missing), missing[m].Beg <= x && x < missing[m].End))
 //@   before store send assert resumed-carries-ranges: typeis(arg0[len(arg0)-1], *recoverFile) && as(arg0[len(arg0)-1], *recoverFile).left == missing && as(arg0[len(arg0)-1], *recoverFile).Cached == f && as(arg0[len(arg0)-1], *recoverFile).prev == partial.Prev
+
+// ---------------------------------------------------------------- allocation of resumed files (C11 C07)
+
+//@ spec wfr(left []*sts.ByteRange) bool = forall(k, 0, len(left), left[k] != nil && 0 <= left[k].Beg && left[k].Beg < left[k].End)
+
+//@ func (*recoverFile).Allocate
+//@   requires f != nil && 0 <= f.part && f.part < len(f.left) && wfr(f.left) && desired > 0 && 0 <= f.used && f.used < f.left[f.part].End - f.left[f.part].Beg
+//@   ensures  allocates-only-missing: offset == old(f.left[f.part].Beg + f.used) && 0 < length && length <= desired && offset + length <= old(f.left[f.part].End)
+//@   ensures  cursor-advances: (offset + length < old(f.left[f.part].End) ==> f.part == old(f.part) && f.used == old(f.used) + length) && (offset + length == old(f.left[f.part].End) ==> f.part == old(f.part) + 1 && f.used == 0)
+//@   ensures  cursor-stays-valid: f.part <= len(f.left) && (f.part < len(f.left) ==> 0 <= f.used && f.used < f.left[f.part].End - f.left[f.part].Beg)
+//@   ensures  takes-all-it-can: length == desired || f.part == old(f.part) + 1
+//@   modifies f.part, f.used
+
+//@ func (*recoverFile).IsAllocated
+//@   ensures result == (f.part == len(f.left))
+//@   modifies nothing
+
+//@ spec rsum(left []*sts.ByteRange, hi int) int64 = ite(hi <= 0, 0, rsum(left, hi-1) + (left[hi-1].End - left[hi-1].Beg))
+//@ func (*recoverFile).GetSendSize
+//@   ensures  sum-of-missing: result == rsum(f.left, len(f.left))
+//@   modifies nothing
+//@   loop 0 invariant -1 <= rangeindex && rangeindex < len(f.left) && size == rsum(f.left, rangeindex+1)
+
+//@ func (*recoverFile).GetPrev
+//@   ensures keeps-announced-prev: result == f.prev
+//@   modifies nothing
+
+// ---------------------------------------------------------------- slices handed to payloads (C11 C10)
+
+//@ func (*binnable).GetNextAlloc
+//@   on return assert cursor-in-slice: r0 == lastret(sts.Sendable.GetSlice, 0) + f.allocated && r1 == lastret(sts.Sendable.GetSlice, 0) + lastret(sts.Sendable.GetSlice, 1) && lastarg(sts.Sendable.GetSlice, 0) == f.Sendable
+//@   modifies nothing
+//@ func (*binnable).AddAlloc
+//@   ensures f.allocated == old(f.allocated) + n
+//@   modifies f.allocated
+//@ func (*binnable).IsAllocated
+//@   on return assert iff-cursor-at-end: result == (f.allocated == lastret(sts.Sendable.GetSlice, 1)) && lastarg(sts.Sendable.GetSlice, 0) == f.Sendable
+//@   modifies nothing
+//@ func (*binnable).GetPrev
+//@   on return assert drops-prev-when-unordered: (f.noPrev ==> result == "") && (!f.noPrev ==> called(sts.Sendable.GetPrev) && result == lastret(sts.Sendable.GetPrev, 0) && lastarg(sts.Sendable.GetPrev, 0) == f.Sendable)
+//@   modifies nothing
